@@ -82,7 +82,7 @@ INIT_LB, INIT_UB = -10.0, 10.0
 def histories(draw):
     steps = []
     nsolves = 0
-    free_start = draw(st.integers(0, 4)) == 0     # every variable completely free at the beginning
+    free_start = draw(st.integers(0, 2)) == 0     # every variable completely free at the beginning
     if draw(st.integers(0, 3)) > 0:
         steps.append([draw(st.sampled_from(["minimize", "maximize"])), draw(st.integers(0, len(OBJECTIVES) - 1))])
     else:
